@@ -388,6 +388,25 @@ def interleave_rule(ctx: Ctx, rule: str = "INTERLEAVE") -> None:
     tdef = [s for s in loop.body if isinstance(s, ast.Assign) and isinstance(s.targets[0], ast.Name) and s.targets[0].id == times_var]
     ok = len(tdef) == 1 and isinstance(tdef[0].value, ast.ListComp) and isinstance(tdef[0].value.elt, ast.IfExp) and "inf" in src(tdef[0].value.elt.orelse) \
         and isinstance(tdef[0].value.elt.test, ast.Compare) and isinstance(tdef[0].value.elt.test.ops[0], ast.Lt)
+    # the table kept up to date entry by entry: built once before the loop (first onset, infinity for an empty channel) and, in the loop,
+    # only the advanced channel's entry recomputed (`times[i] = <onset at the cursor> if cursor[i] < len(list_i) else inf`)
+    incremental = None
+    if not tdef:
+        first_ = [s_ for s_ in fi.node.body if s_.lineno < loop.lineno and isinstance(s_, ast.Assign) and isinstance(s_.targets[0], ast.Name) and s_.targets[0].id == times_var]
+        step_ = [s_ for s_ in loop.body if isinstance(s_, ast.Assign) and isinstance(s_.targets[0], ast.Subscript) and src(s_.targets[0].value) == times_var]
+        if len(first_) == 1 and len(step_) == 1 and isinstance(first_[0].value, ast.ListComp) and isinstance(first_[0].value.elt, ast.IfExp) \
+                and "inf" in src(first_[0].value.elt.orelse) and isinstance(step_[0].value, ast.IfExp) and "inf" in src(step_[0].value.orelse) \
+                and isinstance(step_[0].value.test, ast.Compare) and isinstance(step_[0].value.test.ops[0], ast.Lt) \
+                and src(step_[0].targets[0].slice) == cidx:
+            t0 = first_[0].value.elt.test
+            nonempty = isinstance(t0, ast.Compare) and len(t0.ops) == 1 and (
+                (isinstance(t0.ops[0], ast.Gt) and src(t0.left).startswith("len(") and src(t0.comparators[0]) == "0")
+                or (isinstance(t0.ops[0], ast.Lt) and src(t0.comparators[0]).startswith("len("))
+                or (isinstance(t0.ops[0], ast.NotEq) and src(t0.left).startswith("len(") and src(t0.comparators[0]) == "0"))
+            if nonempty:
+                incremental = (first_[0], step_[0])
+                tdef = [step_[0]]
+                ok = True
     ctx.check(ok, rule, f"{q}: exhausted channels count as infinitely late", function=q, construct="exhausted channels are not excluded from the onset comparison",
               message=f"{[short(s, 90) for s in tdef]}", file=fi.file, node=tdef[0] if tdef else loop)
     # cursor advance: exactly the chosen one, by one
@@ -472,6 +491,15 @@ def interleave_rule(ctx: Ctx, rule: str = "INTERLEAVE") -> None:
                 r = d[0].value.elt if d and isinstance(d[0].value, ast.ListComp) else r
             okr = isinstance(r, ast.Call) and isinstance(r.func, ast.Name) and r.func.id == "len" and r.args and isinstance(r.args[0], ast.Subscript) \
                 and isinstance(r.args[0].slice, ast.Constant) and r.args[0].slice.value == 1
+            if not okr and isinstance(r, ast.Call) and isinstance(r.func, ast.Name) and r.func.id == "len" and r.args and isinstance(r.args[0], ast.Subscript) \
+                    and isinstance(r.args[0].value, ast.Name):
+                # len(lists[i]) with `lists = list(table.values())` (or the second components of its items)
+                dl = [s_ for s_ in pre if isinstance(s_, ast.Assign) and isinstance(s_.targets[0], ast.Name) and s_.targets[0].id == r.args[0].value.id]
+                if len(dl) == 1:
+                    v_ = dl[0].value
+                    okr = (isinstance(v_, ast.Call) and src(v_.func) == "list" and len(v_.args) == 1 and isinstance(v_.args[0], ast.Call)
+                           and call_method(v_.args[0])[1] == "values") \
+                        or (isinstance(v_, ast.ListComp) and isinstance(v_.elt, ast.Subscript) and isinstance(v_.elt.slice, ast.Constant) and v_.elt.slice.value == 1)
             ctx.check(okr, rule, f"{q}: `{short(c, 60)}` measures the channel's pairing list", function=q,
                       construct="exhaustion test does not compare with the length of the channel's pairing list", message=short(r, 80), file=fi.file, node=c)
     # onset table before the loop = onset table recomputed in the loop
@@ -518,7 +546,8 @@ def interleave_rule(ctx: Ctx, rule: str = "INTERLEAVE") -> None:
             ctx.check(okid and okpr, rule, f"{q}: channel ids are the keys and pairings the values of the pairing table's items", function=q,
                       construct="interleaving mixes up the key and the value of the pairing table's items", message=f"{chs} / {prs}", file=fi.file, node=apps[0])
     # (a table computed at the top of every round, before the choice, is fresh by construction)
-    ctx.check(fresh_each_round or (bool(nxt) and bool(incs) and all(s.lineno > incs[0].lineno for s in nxt)), rule,
+    ctx.check(fresh_each_round or (bool(nxt) and bool(incs) and all(s.lineno > incs[0].lineno for s in nxt))
+              or (incremental is not None and bool(incs) and incremental[1].lineno > incs[0].lineno), rule,
               f"{q}: the next-onset table is refreshed after the cursor moved ({len(nxt)} refresh)", function=q,
               construct="next-onset table is not refreshed after the cursor advance", message="the choice of the next round would use stale onsets",
               file=fi.file, node=loop)
